@@ -23,7 +23,7 @@ _VQ = ['resolution_keeps_pivot', 'backjump_one_too_high', 'unit_wrong_polarity',
 TIERS = {
     'quick': dict(fork=False, worlds=16, runs=1200, batch=200, det_runs=32, soft_timeout=300,
                   variants=_VQ, variant_budget=2500, min_tests=200),
-    'thorough': dict(fork=False, worlds=64, runs=40000, batch=500, det_runs=64, soft_timeout=900,
+    'thorough': dict(fork=False, worlds=64, runs=15000, batch=500, det_runs=64, soft_timeout=900,
                      variants=_VQ + ['proof_omits_first', 'analyze_stops_early'],
                      variant_budget=30000, min_tests=400, sweep=True),
 }
